@@ -32,6 +32,7 @@ type Scenario struct {
 	N          int              `json:"n,omitempty"`
 	LimitsOpts []LimitsOpt      `json:"limits_opts,omitempty"`
 	SamplerOpt string           `json:"sampler_opt,omitempty"`
+	Probe      bool             `json:"probe,omitempty"` // blrp: wait for an export triggered by the queue length
 }
 
 // Result is what the child observed.
@@ -49,6 +50,7 @@ type Result struct {
 	Total     int     `json:"total,omitempty"`
 	Limits    []int64 `json:"limits,omitempty"`
 	Decisions []bool  `json:"decisions,omitempty"`
+	Triggered bool    `json:"triggered,omitempty"`
 }
 
 const slowDelay = 600 * time.Millisecond
